@@ -40,6 +40,19 @@ pub enum Op {
     Not(usize),                  // 21 bool -> bool
     And(usize, usize),           // 22
     Inverse(usize),              // 23 (non-zero)
+    // family 5 (kinds bit 32): further gadgets of plonky2::gadgets
+    Arith(u64, u64, usize, usize, usize),          // 24 c0 c1 a b c -> c0*a*b + c1*c   (CircuitBuilder::arithmetic with its constant special cases)
+    ExpBits(usize, Vec<usize>),                    // 25 base, bits (little endian booleans) -> base^(sum bits_i 2^i)
+    MulMany(Vec<usize>),                           // 26
+    AddMany(Vec<usize>),                           // 27
+    ExtMul([usize; 2], [usize; 2]),                // 28 -> 2 values
+    ExtDiv([usize; 2], [usize; 2]),                // 29 (divisor non-zero) -> 2 values
+    ExtArith(u64, u64, [usize; 2], [usize; 2], [usize; 2]), // 30 c0 c1 a b c -> c0*a*b + c1*c over the quadratic extension -> 2 values
+    Square(usize),                                 // 31
+    Cube(usize),                                   // 32
+    ExpPow2(usize, usize),                         // 33 a, k -> a^(2^k)
+    SplitBase4(usize, usize),                      // 36 value, nlimbs -> nlimbs base-4 digits (value < 4^nlimbs)
+    Exp(usize, usize, usize),                      // 37 base, exponent, nbits (exponent < 2^nbits) -> base^exponent
 }
 
 #[derive(Clone, Debug, Default)]
@@ -48,6 +61,10 @@ pub struct Program {
     pub ops: Vec<Op>,
     pub inputs: Vec<u64>, // one per Input op, canonical
 }
+
+type QE = plonky2::field::extension::quadratic::QuadraticExtension<plonky2::field::goldilocks_field::GoldilocksField>;
+fn qe(vals: &[u64], i: &[usize; 2]) -> QE { plonky2::field::extension::quadratic::QuadraticExtension([F(vals[i[0]]), F(vals[i[1]])]) }
+fn et(t: &[Target], i: &[usize; 2]) -> plonky2::iop::ext_target::ExtensionTarget<D> { plonky2::iop::ext_target::ExtensionTarget([t[i[0]], t[i[1]]]) }
 
 fn fadd(a: u64, b: u64) -> u64 { (F(a) + F(b)).to_canonical_u64() }
 fn fmul(a: u64, b: u64) -> u64 { (F(a) * F(b)).to_canonical_u64() }
@@ -112,6 +129,34 @@ pub fn eval_native(p: &Program) -> Option<(Vec<u64>, Vec<u64>)> {
             Op::Not(a) => { if vals[*a] > 1 { return None; } vals.push(1 - vals[*a]) }
             Op::And(a, b) => { if vals[*a] > 1 || vals[*b] > 1 { return None; } vals.push(vals[*a] * vals[*b]) }
             Op::Inverse(a) => { if vals[*a] == 0 { return None; } vals.push(F(vals[*a]).inverse().to_canonical_u64()) }
+            Op::Arith(c0, c1, a, b, c) => vals.push((F(*c0 % P) * F(vals[*a]) * F(vals[*b]) + F(*c1 % P) * F(vals[*c])).to_canonical_u64()),
+            Op::ExpBits(a, bits) => {
+                let mut e: u128 = 0;
+                for (i, bi) in bits.iter().enumerate() { if vals[*bi] > 1 { return None; } e += (vals[*bi] as u128) << i; }
+                let mut acc = F::ONE; let mut base = F(vals[*a]);
+                let mut ee = e; while ee > 0 { if ee & 1 == 1 { acc *= base; } base = base * base; ee >>= 1; }
+                vals.push(acc.to_canonical_u64())
+            }
+            Op::MulMany(v) => vals.push(v.iter().fold(F::ONE, |acc, i| acc * F(vals[*i])).to_canonical_u64()),
+            Op::AddMany(v) => vals.push(v.iter().fold(F::ZERO, |acc, i| acc + F(vals[*i])).to_canonical_u64()),
+            Op::ExtMul(a, b) => { let r = qe(&vals, a) * qe(&vals, b); vals.push(r.0[0].to_canonical_u64()); vals.push(r.0[1].to_canonical_u64()) }
+            Op::ExtDiv(a, b) => { let d = qe(&vals, b); if d == QE::ZERO { return None; } let r = qe(&vals, a) / d;
+                                  vals.push(r.0[0].to_canonical_u64()); vals.push(r.0[1].to_canonical_u64()) }
+            Op::ExtArith(c0, c1, a, b, c) => { let r = QE::from(F(*c0 % P)) * qe(&vals, a) * qe(&vals, b) + QE::from(F(*c1 % P)) * qe(&vals, c);
+                                               vals.push(r.0[0].to_canonical_u64()); vals.push(r.0[1].to_canonical_u64()) }
+            Op::Square(a) => vals.push((F(vals[*a]) * F(vals[*a])).to_canonical_u64()),
+            Op::Cube(a) => vals.push((F(vals[*a]) * F(vals[*a]) * F(vals[*a])).to_canonical_u64()),
+            Op::ExpPow2(a, k) => { let mut x = F(vals[*a]); for _ in 0..*k { x = x * x; } vals.push(x.to_canonical_u64()) }
+            Op::SplitBase4(a, n) => {
+                let v = vals[*a];
+                if *n < 32 && (v >> (2 * *n)) != 0 { return None; }
+                for i in 0..*n { vals.push(if 2 * i < 64 { (v >> (2 * i)) & 3 } else { 0 }); }
+            }
+            Op::Exp(a, e, nb) => {
+                let ev = vals[*e];
+                if *nb < 64 && (ev >> *nb) != 0 { return None; }
+                vals.push(F(vals[*a]).exp_u64(ev).to_canonical_u64())
+            }
         }
     }
     Some((vals, pubs))
@@ -153,6 +198,24 @@ pub fn build(p: &Program, b: &mut CircuitBuilder<F, D>) -> Vec<Target> {
             Op::Not(x) => t.push(b.not(BoolTarget::new_unsafe(t[*x])).target),
             Op::And(x, y) => t.push(b.and(BoolTarget::new_unsafe(t[*x]), BoolTarget::new_unsafe(t[*y])).target),
             Op::Inverse(x) => t.push(b.inverse(t[*x])),
+            Op::Arith(c0, c1, x, y, z) => t.push(b.arithmetic(F::from_noncanonical_u64(*c0 % P), F::from_noncanonical_u64(*c1 % P), t[*x], t[*y], t[*z])),
+            Op::ExpBits(x, bits) => {
+                let bs: Vec<BoolTarget> = bits.iter().map(|i| BoolTarget::new_unsafe(t[*i])).collect();
+                t.push(b.exp_from_bits(t[*x], bs.iter()))
+            }
+            Op::MulMany(v) => { let ts: Vec<Target> = v.iter().map(|j| t[*j]).collect(); t.push(b.mul_many(ts.iter())) }
+            Op::AddMany(v) => { let ts: Vec<Target> = v.iter().map(|j| t[*j]).collect(); t.push(b.add_many(ts.iter())) }
+            Op::ExtMul(x, y) => { let r = b.mul_extension(et(&t, x), et(&t, y)); t.push(r.0[0]); t.push(r.0[1]) }
+            Op::ExtDiv(x, y) => { let r = b.div_extension(et(&t, x), et(&t, y)); t.push(r.0[0]); t.push(r.0[1]) }
+            Op::ExtArith(c0, c1, x, y, z) => {
+                let r = b.arithmetic_extension(F::from_noncanonical_u64(*c0 % P), F::from_noncanonical_u64(*c1 % P), et(&t, x), et(&t, y), et(&t, z));
+                t.push(r.0[0]); t.push(r.0[1])
+            }
+            Op::Square(x) => t.push(b.square(t[*x])),
+            Op::Cube(x) => t.push(b.cube(t[*x])),
+            Op::ExpPow2(x, k) => t.push(b.exp_power_of_2(t[*x], *k)),
+            Op::SplitBase4(x, n) => { for limb in b.split_le_base::<4>(t[*x], *n) { t.push(limb) } }
+            Op::Exp(x, e, nb) => t.push(b.exp(t[*x], t[*e], *nb)),
         }
     }
     ins
@@ -202,6 +265,18 @@ pub fn encode(p: &Program) -> Vec<u64> {
             Op::Not(a) => o.extend([21, *a as u64]),
             Op::And(a, b) => o.extend([22, *a as u64, *b as u64]),
             Op::Inverse(a) => o.extend([23, *a as u64]),
+            Op::Arith(c0, c1, a, b, c) => o.extend([24, *c0 % P, *c1 % P, *a as u64, *b as u64, *c as u64]),
+            Op::ExpBits(a, v) => { o.extend([25, *a as u64, v.len() as u64]); o.extend(v.iter().map(|x| *x as u64)) }
+            Op::MulMany(v) => { o.extend([26, v.len() as u64]); o.extend(v.iter().map(|x| *x as u64)) }
+            Op::AddMany(v) => { o.extend([27, v.len() as u64]); o.extend(v.iter().map(|x| *x as u64)) }
+            Op::ExtMul(a, b) => o.extend([28, a[0] as u64, a[1] as u64, b[0] as u64, b[1] as u64]),
+            Op::ExtDiv(a, b) => o.extend([29, a[0] as u64, a[1] as u64, b[0] as u64, b[1] as u64]),
+            Op::ExtArith(c0, c1, a, b, c) => o.extend([30, *c0 % P, *c1 % P, a[0] as u64, a[1] as u64, b[0] as u64, b[1] as u64, c[0] as u64, c[1] as u64]),
+            Op::Square(a) => o.extend([31, *a as u64]),
+            Op::Cube(a) => o.extend([32, *a as u64]),
+            Op::ExpPow2(a, k) => o.extend([33, *a as u64, *k as u64]),
+            Op::SplitBase4(a, n) => o.extend([36, *a as u64, *n as u64]),
+            Op::Exp(a, e, nb) => o.extend([37, *a as u64, *e as u64, *nb as u64]),
         }
     }
     o
@@ -210,7 +285,9 @@ pub fn encode(p: &Program) -> Vec<u64> {
 const BOUNDARY_VALS: [u64; 12] = [0, 1, 2, P - 1, P - 2, 1 << 16, (1 << 16) - 1, 1 << 32, (1 << 32) - 1, 1 << 63, (1 << 63) - 1, 255];
 
 /// Generate a satisfiable program of about `n` operations. `kinds` restricts the gadget families:
-/// bit 0 arithmetic, 1 bits/range, 2 select/random access, 3 hash, 4 lookup.
+/// bit 0 arithmetic, 1 bits/range, 2 select/random access, 3 hash, 4 lookup, 5 further gadgets (general
+/// arithmetic with constants, exponentiation by bits / by a target, products and sums of many, quadratic
+/// extension arithmetic, base-4 splits).
 pub fn generate(r: &mut Rng, n: usize, kinds: u32) -> Program {
     let mut p = Program::default();
     let mut vals: Vec<u64> = vec![];
@@ -249,7 +326,7 @@ pub fn generate(r: &mut Rng, n: usize, kinds: u32) -> Program {
         let a = r.below(len as u64) as usize;
         let b = r.below(len as u64) as usize;
         let c = r.below(len as u64) as usize;
-        let fam = r.below(5);
+        let fam = r.below(6);
         if kinds & (1 << fam) == 0 { continue; }
         match fam {
             0 => match r.below(9) {
@@ -317,7 +394,7 @@ pub fn generate(r: &mut Rng, n: usize, kinds: u32) -> Program {
                 let v: Vec<usize> = (0..k).map(|_| r.below(len as u64) as usize).collect();
                 push(&mut p, &mut vals, Op::Hash(v));
             }
-            _ => if !p.tables.is_empty() {
+            4 => if !p.tables.is_empty() {
                 let t = r.below(p.tables.len() as u64) as usize;
                 let (i, _) = *r.pick(&p.tables[t]);
                 p.inputs.push(i as u64);
@@ -325,6 +402,51 @@ pub fn generate(r: &mut Rng, n: usize, kinds: u32) -> Program {
                 let ii = vals.len() - 1;
                 push(&mut p, &mut vals, Op::Lookup(t, ii));
             },
+            _ => {
+                // constants that trigger the builder's special cases; operands that are themselves constants
+                let cst = |r: &mut Rng| -> u64 { match r.below(5) { 0 => 0, 1 => 1, 2 => P - 1, 3 => 2, _ => r.next_u64() % P } };
+                let d = r.below(len as u64) as usize;
+                let e = r.below(len as u64) as usize;
+                let f = r.below(len as u64) as usize;
+                match r.below(12) {
+                    0 => { let (c0, c1) = (cst(r), cst(r)); push(&mut p, &mut vals, Op::Arith(c0, c1, a, b, c)) }
+                    1 => {
+                        // operands that are constant targets (0, 1, anything)
+                        push(&mut p, &mut vals, Op::Const(cst(r)));
+                        let k1 = vals.len() - 1;
+                        let (c0, c1) = (cst(r), cst(r));
+                        match r.below(3) { 0 => push(&mut p, &mut vals, Op::Arith(c0, c1, k1, b, c)), 1 => push(&mut p, &mut vals, Op::Arith(c0, c1, a, k1, k1)),
+                                           _ => push(&mut p, &mut vals, Op::Arith(c0, c1, a, b, k1)) }
+                    }
+                    2 => if !bools.is_empty() {
+                        let k = 1 + r.below(bools.len().min(20) as u64) as usize;
+                        let bits: Vec<usize> = (0..k).map(|_| *r.pick(&bools)).collect();
+                        push(&mut p, &mut vals, Op::ExpBits(a, bits));
+                    },
+                    3 => { let k = r.below(6) as usize; let v: Vec<usize> = (0..k).map(|_| r.below(len as u64) as usize).collect();
+                           if r.coin() { push(&mut p, &mut vals, Op::MulMany(v)) } else { push(&mut p, &mut vals, Op::AddMany(v)) } }
+                    4 => push(&mut p, &mut vals, Op::ExtMul([a, b], [c, d])),
+                    5 => if vals[c] != 0 || vals[d] != 0 { push(&mut p, &mut vals, Op::ExtDiv([a, b], [c, d])) },
+                    6 => { let (c0, c1) = (cst(r), cst(r)); push(&mut p, &mut vals, Op::ExtArith(c0, c1, [a, b], [c, d], [e, f])) }
+                    7 => push(&mut p, &mut vals, Op::Square(a)),
+                    8 => push(&mut p, &mut vals, Op::Cube(a)),
+                    9 => push(&mut p, &mut vals, Op::ExpPow2(a, r.below(8) as usize)),
+                    10 => if kinds & 64 != 0 {
+                        // base-4 limbs (BaseSumGate<4>): bit 6 of `kinds`, because the DEFAULT gate / generator
+                        // serializers register base 2 only - such a circuit cannot be written with them (clean Err)
+                        let nl = 1 + r.below(20) as usize;
+                        let v = if r.coin() { (1u64 << (2 * nl)) - 1 } else { r.next_u64() & ((1u64 << (2 * nl)) - 1) };
+                        p.inputs.push(v);
+                        push(&mut p, &mut vals, Op::Input);
+                        let ii = vals.len() - 1;
+                        push(&mut p, &mut vals, Op::SplitBase4(ii, nl + r.below(2) as usize));
+                    },
+                    _ => if !small.is_empty() {
+                        let (ei, bits) = *r.pick(&small);
+                        push(&mut p, &mut vals, Op::Exp(a, ei, bits + r.below(3) as usize));
+                    },
+                }
+            }
         }
         if r.below(6) == 0 {
             let x = r.below(vals.len() as u64) as usize;
